@@ -79,18 +79,19 @@ type run struct {
 	symbolicPath bool
 	events       []string
 
-	twins    map[*Term]*Term
-	stack    []*ssa.Function
-	names    map[*value]string
-	watch    map[*value]string
-	watchMap map[*smap]string
-	trace    []string
-	tracing  bool
-	traces   []traceRec
-	onceDone map[*value]bool
-	syncIDs  map[*value]int
-	syncLog  []syncEv
-	held     map[*value]int
+	pendingGo []pendingGo
+	twins     map[*Term]*Term
+	stack     []*ssa.Function
+	names     map[*value]string
+	watch     map[*value]string
+	watchMap  map[*smap]string
+	trace     []string
+	tracing   bool
+	traces    []traceRec
+	onceDone  map[*value]bool
+	syncIDs   map[*value]int
+	syncLog   []syncEv
+	held      map[*value]int
 }
 
 // ---------------------------------------------------------------- choices
@@ -597,5 +598,6 @@ func (e *engine) runPath(sol *Solver, entry *ssa.Function, args []value, prefix 
 		r.callSSA(nil, token.NoPos, init, nil, nil)
 	}
 	r.callSSA(nil, token.NoPos, entry, args, nil)
+	r.flushGoroutines()
 	return r
 }
